@@ -27,6 +27,7 @@ def run(ctx):
     malsec.shuffle_order(ctx, facts, "ORDER-shuffle")
     malsec.hash_guards(ctx, facts, "GUARD-hash")
     malsec.shuffle_verify_path(ctx, facts, "PATH-verify")
+    malsec.keys_barrier(ctx, facts, "KEYS-barrier")     # the linear MAC protects only while its keys are secret: no key share leaves a helper before the others' shuffle messages are fixed
     malsec.hash_cover(ctx, facts)       # comparing hashes checks exactly what the hash absorbs
     from rules import shufalg
     shufalg.algebra(ctx, facts, "ALGEBRA")
